@@ -582,45 +582,68 @@ def fresh_start(workdir, image, U, keep_lock=False):
     lim = 6 << 30
     resource.setrlimit(resource.RLIMIT_AS, (lim if hard == resource.RLIM_INFINITY else min(lim, hard), hard))
 
+    class _HarnessTimeout(BaseException):
+        """raised by the alarm; a harness time-out is a skip, never a verdict about the property"""
+
     def _timeout(sig, frm):
-        raise TimeoutError("fresh start took more than 30 s")
-    oldh = signal.signal(signal.SIGALRM, _timeout)
-    signal.alarm(30)
-    try:
+        raise _HarnessTimeout()
+
+    def _is_to(e):
+        return isinstance(e, _HarnessTimeout)
+
+    def _run():
         try:
             s = _BobState()
         except BaseException as e:
+            if _is_to(e):
+                raise
             return ("error:" + type(e).__name__ + ":" + str(getattr(e, "slogan", e))[:80], None, listing(workdir))
         try:
             try:
                 v = view(s, U)
             except BaseException as e:
+                if _is_to(e):
+                    raise
                 return ("error:getters:" + type(e).__name__ + ":" + str(e)[:80], None, listing(workdir))
             files_after_init = listing(workdir)
         finally:
             try:
                 s.finalize()
-            except BaseException:
-                pass
+            except BaseException as e:
+                if _is_to(e):
+                    raise
         # the recovered state must be stable: an invocation that changes nothing, followed by another
         # start, loads the same snapshot again (a rejected uncommitted file must not come back)
         try:
             s2 = _BobState()
         except BaseException as e:
+            if _is_to(e):
+                raise
             return ("error:second-start:" + type(e).__name__ + ":" + str(getattr(e, "slogan", e))[:80], None, listing(workdir))
         try:
             try:
                 v2 = view(s2, U)
             except BaseException as e:
+                if _is_to(e):
+                    raise
                 return ("error:second-start-getters:" + type(e).__name__ + ":" + str(e)[:80], None, listing(workdir))
         finally:
             try:
                 s2.finalize()
-            except BaseException:
-                pass
+            except BaseException as e:
+                if _is_to(e):
+                    raise
         if v2 != v:
             return ("error:second-start-loads-different-state", None, listing(workdir))
         return ("ok", v, files_after_init)
+
+    oldh = signal.signal(signal.SIGALRM, _timeout)
+    signal.alarm(120)
+    try:
+        try:
+            return _run()
+        except _HarnessTimeout:
+            return ("timeout", None, {})
     finally:
         signal.alarm(0)
         signal.signal(signal.SIGALRM, oldh)
@@ -779,6 +802,9 @@ def crash_images(tmp, script, tag, seed, thorough, budget_images, want_images, o
                 count("garbling", "undetectable-skipped")
                 continue
             outcome, v, after = fresh_start(work, image, U)
+            if outcome == "timeout":
+                count("outcome", "harness-timeout-skipped")
+                continue
             images_done += 1
             res["cases"] += 1
             nontriv = bool(unsynced)
@@ -1035,6 +1061,8 @@ def verify_cases(ctx):
                                       ("empty-adler", b"\x01\x00\x00\x00")]
         for label, g in gl:
             outcome, _, after = fresh_start(work, {"new": g}, U)
+            if outcome == "timeout":
+                continue
             out.append((label, g, "pickle" in after, outcome))
     shutil.rmtree(work, ignore_errors=True)
     _CACHE["verify"] = out
@@ -1329,6 +1357,9 @@ def _correspond(ctx):
     for v, (want, got) in enumerate(zip(vwant, ctx.lean(DRIVER, vreqs))):
         ctx.case(("version", v))
         ctx.count("version_window", want)
+        if want == "timeout":
+            ctx.skip("version window: fresh start timed out")
+            continue
         if got.get("res") != want:
             ctx.disagree("version window of __init__ == loadBytes", {"version": v}, want, got.get("res"))
     shutil.rmtree(work, ignore_errors=True)
@@ -1365,6 +1396,9 @@ def replay(ctx, case):
                 if n != "lock" and n not in case["image"]:
                     del image[n]
         outcome, v, _ = fresh_start(work, image, U)
+        if outcome == "timeout":
+            ctx.skip("replay: fresh start timed out")
+            return
         if outcome != "ok":
             ctx.violation("the next start fails: " + outcome, case, "start-fails-after-crash")
         elif not (v == base or v == last or any(v == x for x in since)):
